@@ -22,6 +22,10 @@ pub struct StCase {
     /// session must not depend on it
     #[serde(default)]
     pub order: u8,
+    /// every input is handed over twice per tick, a wrong value first (documented: the later
+    /// call overwrites the earlier one)
+    #[serde(default)]
+    pub double_input: bool,
 }
 
 /// The `k`-th permutation of 0..4 (lexicographic).
@@ -86,6 +90,9 @@ pub fn run_case(c: &StCase) -> StResult {
         let f = sess.current_frame();
         let res = catch_unwind(AssertUnwindSafe(|| {
             for p in 0..c.players {
+                if c.double_input {
+                    sess.add_local_input(p, c.program.value(p, f) ^ 0x5A).expect("add_local_input");
+                }
                 sess.add_local_input(p, c.program.value(p, f)).expect("add_local_input");
             }
             sess.advance_frame()
@@ -187,11 +194,14 @@ fn grid(thorough: bool) -> Vec<StCase> {
                 for &d in &delays {
                     for sparse in [false, true] {
                         for program in [Program::Changing, Program::Runs, Program::Constant] {
-                            v.push(StCase { players, cd, w, d, sparse, program, frames: 60, nondet: None, order: 0 });
+                            v.push(StCase { players, cd, w, d, sparse, program, frames: 60, nondet: None, order: 0, double_input: false });
+                            if program == Program::Changing && (cd + w + d) % 3 == 0 {
+                                v.push(StCase { players, cd, w, d, sparse, program, frames: 60, nondet: None, order: 0, double_input: true });
+                            }
                             // every other order of the four setters (one input program suffices)
                             if program == Program::Constant && (thorough || d == 0) {
                                 for order in 1..24u8 {
-                                    v.push(StCase { players, cd, w, d, sparse, program, frames: 60, nondet: None, order });
+                                    v.push(StCase { players, cd, w, d, sparse, program, frames: 60, nondet: None, order, double_input: false });
                                 }
                             }
                         }
